@@ -4,6 +4,7 @@ package ingest
 
 import (
 	"diagonal.works/b6"
+	"diagonal.works/b6/osm"
 	"diagonal.works/b6/verifrt"
 	"github.com/golang/geo/s1"
 	"github.com/golang/geo/s2"
@@ -190,4 +191,50 @@ func verifLemma_C15_remove_keeps_other_referrers() {
 	verifrt.Assert(refs[0].Source() == q.FeatureID(), "other-referrer-is-the-one-kept")
 	f.RemoveFeature(q)
 	verifrt.Assert(len(f[p]) == 0, "no-entry-left")
+}
+
+// ---- C29: OSM relations -> relation features (bounded shape) ---------------------------------
+// One closed way (5), one open way (6), one multipolygon relation (7) and one other
+// relation (100) whose members are those three and a node. The real
+// NewFeatureSourceFromPBF (both passes) and pbfSource.Read are executed: the relation
+// becomes one relation feature whose members point at the features the elements
+// became - the area for the closed way and for the multipolygon, the path for the open
+// way, the point for the node - in order, with their roles.
+func verifLemma_C29_relation_members() {
+	src := &MemoryOSMSource{
+		Ways: []osm.Way{
+			{ID: 5, Nodes: []osm.NodeID{1, 2, 3, 1}},
+			{ID: 6, Nodes: []osm.NodeID{1, 2}},
+		},
+		Relations: []osm.Relation{
+			{ID: 7, Tags: osm.Tags{{Key: "type", Value: "multipolygon"}}, Members: []osm.Member{{Type: osm.ElementTypeWay, ID: 5, Role: "outer"}}},
+			{ID: 100, Members: []osm.Member{
+				{Type: osm.ElementTypeWay, ID: 5, Role: "a"},
+				{Type: osm.ElementTypeWay, ID: 6, Role: "b"},
+				{Type: osm.ElementTypeRelation, ID: 7, Role: "c"},
+				{Type: osm.ElementTypeNode, ID: 1, Role: "d"},
+			}},
+		},
+	}
+	fs, err := NewFeatureSourceFromPBF(src, &BuildOptions{Cores: 1}, nil)
+	verifrt.Assert(err == nil, "source-built")
+	var got []b6.RelationMember
+	var id b6.RelationID
+	n := 0
+	emit := func(f Feature, g int) error {
+		if r, ok := f.(*RelationFeature); ok {
+			n++
+			id = r.RelationID
+			got = append(got, r.Members...)
+		}
+		return nil
+	}
+	err = fs.Read(ReadOptions{SkipPoints: true, SkipPaths: true, SkipAreas: true, Goroutines: 1}, emit, nil)
+	verifrt.Assert(err == nil, "read-succeeds")
+	verifrt.Assert(n == 1 && id == FromOSMRelationID(100), "one-relation-feature")
+	verifrt.Assert(len(got) == 4, "four-members")
+	verifrt.Assert(got[0].ID == AreaIDFromOSMWayID(5).FeatureID() && got[0].Role == "a", "closed-way-member-is-its-area")
+	verifrt.Assert(got[1].ID == FromOSMWayID(6) && got[1].Role == "b", "open-way-member-is-its-path")
+	verifrt.Assert(got[2].ID == AreaIDFromOSMRelationID(7).FeatureID() && got[2].Role == "c", "multipolygon-member-is-its-area")
+	verifrt.Assert(got[3].ID == FromOSMNodeID(1) && got[3].Role == "d", "node-member-is-its-point")
 }
